@@ -57,12 +57,16 @@
 
 use std::{
     collections::{HashMap, VecDeque, hash_map},
-    sync::{Arc, Mutex, Weak},
+    sync::{Arc, Weak},
     time::{Duration, SystemTime},
 };
 
-use scc::HashIndex;
-use scion_sdk_utils::backoff::BackoffConfig;
+#[cfg(not(feature = "verif-hooks"))]
+use scc::{HashIndex, hash_index::Entry};
+use scion_sdk_utils::{
+    backoff::BackoffConfig,
+    verif::{self, Mutex, RandomState},
+};
 use sciparse::{
     dataplane_path::view::ScionDpPathViewRef, identifier::isd_asn::IsdAsn, path::ScionPath,
     payload::scmp::model::ScmpErrorMessage,
@@ -96,6 +100,11 @@ mod pathset;
 pub(crate) mod reliability;
 /// Path fetcher traits and types.
 pub mod traits;
+/// Seams for deterministic simulation.
+#[cfg(feature = "verif-hooks")]
+pub mod verif_shim;
+#[cfg(feature = "verif-hooks")]
+use verif_shim::{Entry, HashIndex};
 
 /// Configuration for the `MultiPathManager`.
 #[derive(Debug, Clone, Copy)]
@@ -403,11 +412,11 @@ impl<F: PathFetcher> MultiPathManager<F> {
     /// Returns a reference to the managed paths.
     fn ensure_managed_paths(&self, src: IsdAsn, dst: IsdAsn) -> PathSetHandle {
         let entry = match self.0.managed_paths.entry_sync((src, dst)) {
-            scc::hash_index::Entry::Occupied(occupied) => {
+            Entry::Occupied(occupied) => {
                 tracing::trace!(%src, %dst, "Already managing paths for src-dst pair");
                 occupied
             }
-            scc::hash_index::Entry::Vacant(vacant) => {
+            Entry::Vacant(vacant) => {
                 tracing::info!(%src, %dst, "Starting to manage paths for src-dst pair");
                 let managed = PathSet::new(
                     src,
@@ -465,14 +474,14 @@ impl<F: PathFetcher> MultiPathManager<F> {
 
 impl<F: PathFetcher> ScmpErrorReceiver for MultiPathManager<F> {
     fn report_scmp_error(&self, scmp_error: ScmpErrorMessage, _path: ScionDpPathViewRef) {
-        self.report_path_issue(SystemTime::now(), IssueKind::Scmp { error: scmp_error });
+        self.report_path_issue(verif::system_now(), IssueKind::Scmp { error: scmp_error });
     }
 }
 
 impl<F: PathFetcher> SendErrorReceiver for MultiPathManager<F> {
     fn report_send_error(&self, error: &ScionSocketSendError) {
         if let Some(send_error) = SendError::from_socket_send_error(error) {
-            self.report_path_issue(SystemTime::now(), IssueKind::Socket { err: send_error });
+            self.report_path_issue(verif::system_now(), IssueKind::Socket { err: send_error });
         }
     }
 }
@@ -551,7 +560,7 @@ struct PathIssueManager {
 
     // Mutable
     /// Map of issue ID to issue marker
-    cache: HashMap<u64, IssueMarker>,
+    cache: HashMap<u64, IssueMarker, RandomState>,
     // FiFo queue of issue IDs and their timestamps
     fifo_issues: VecDeque<(u64, SystemTime)>,
 
@@ -565,7 +574,7 @@ impl PathIssueManager {
         PathIssueManager {
             max_entries,
             deduplication_window,
-            cache: HashMap::new(),
+            cache: HashMap::default(),
             fifo_issues: VecDeque::new(),
             issue_broadcast_tx,
         }
